@@ -278,7 +278,7 @@ func (g *gen) flatObj(keys ...string) *Schema {
 		case 0:
 			v = Val{Kind: "str", Str: fmt.Sprintf("s%d", g.num())}
 		case 1:
-			if tt, ok := g.refTarget(-1, "flatT", "int", "str", "regex"); ok {
+			if tt, ok := g.refTarget(-1, "flatT", "int", "str", "regex", "bool"); ok {
 				v = Val{Kind: "ref", Ref: tt.name}
 			}
 		}
@@ -532,7 +532,7 @@ func GenDoc(t *rapid.T, o GenOpts) *Doc {
 	nt := g.intn(o.MaxTypes+1, "ntypes")
 	for i := 0; i < nt; i++ {
 		k := "obj"
-		tk := g.intn(8, "typeKind")
+		tk := g.intn(9, "typeKind")
 		if o.Inheritance && tk < 4 && g.chance(1, 2, "objBoost") {
 			tk = 7
 		}
@@ -547,6 +547,8 @@ func GenDoc(t *rapid.T, o GenOpts) *Doc {
 			k = "arr"
 		case 4:
 			k = "str"
+		case 8:
+			k = "bool"
 		}
 		g.types = append(g.types, genType{name: fmt.Sprintf("@t%d", g.num()), kind: k})
 	}
@@ -587,6 +589,8 @@ func GenDoc(t *rapid.T, o GenOpts) *Doc {
 			d.Schema = &Schema{Notation: "jsight", Root: "int", Int: g.num()}
 		case "str":
 			d.Schema = &Schema{Notation: "jsight", Root: "str", Str: fmt.Sprintf("text%d", g.num())}
+		case "bool":
+			d.Schema = &Schema{Notation: "jsight", Root: "bool"}
 		case "regex":
 			d.Schema = &Schema{Notation: "regex", Regex: fmt.Sprintf("[a-z]{3}r%d", g.num())}
 		case "any":
@@ -850,21 +854,31 @@ func GenDoc(t *rapid.T, o GenOpts) *Doc {
 			u.Children = append(u.Children, g.newDir("Protocol", "json-rpc-2.0"))
 			nm := 1 + g.intn(2, "nrpc")
 			for j := 0; j < nm; j++ {
-				m := g.newDir("Method", fmt.Sprintf("m%d", g.num()))
+				mname := fmt.Sprintf("m%d", g.num())
+				if g.chance(1, 3, "sharedRpcName") {
+					// the same method name may be used on several URLs (the path is part of the identifier)
+					mname = fmt.Sprintf("shared%d", j)
+				}
+				m := g.newDir("Method", mname)
 				m.Ann = g.annotation()
 				if g.chance(1, 3, "rpcDesc") {
 					m.Children = append(m.Children, g.description())
 				}
+				var pr []*Dir
 				if g.chance(2, 3, "rpcParams") {
 					p := g.newDir("Params")
 					p.Schema = g.objSchema(true)
-					m.Children = append(m.Children, p)
+					pr = append(pr, p)
 				}
 				if g.chance(1, 2, "rpcResult") {
 					p := g.newDir("Result")
 					p.Schema = g.objSchema(true)
-					m.Children = append(m.Children, p)
+					pr = append(pr, p)
 				}
+				if len(pr) == 2 && g.chance(1, 2, "resultFirst") {
+					pr[0], pr[1] = pr[1], pr[0]
+				}
+				m.Children = append(m.Children, pr...)
 				if len(g.tags) > 0 && g.chance(1, 3, "rpcTags") {
 					m.Children = append(m.Children, g.newDir("Tags", g.pickStr(g.tags, "rtag")))
 				}
